@@ -261,7 +261,7 @@ func snapsimPhases(tier string) map[string]phase {
 	m["reference-digests"] = phase{Name: "reference-digests", Build: "snapsim", TestRun: "^TestVerifSnapsim$", Engine: "snapsim", Mode: "digests",
 		Workers: 16, MaxSeeds: per, Extra: map[string]string{"order": "sorted", "role": "reference"}}
 	m["process-repetition"] = phase{Name: "process-repetition", Build: "snapsim-plain", TestRun: "^TestVerifSnapsim$", Engine: "snapsim-plain", Mode: "digests",
-		Workers: 16, MaxSeeds: per, Extra: map[string]string{"repeat": "3", "role": "compare"}}
+		Workers: 16, MaxSeeds: per, Extra: map[string]string{"repeat": "3", "role": "compare", "reverse": "1"}}
 	return m
 }
 
